@@ -127,30 +127,37 @@ def get_type_graph(t: type) -> graphlib.TopologicalSorter[TypeNode]:
                 continue
 
             unwrapped = inspection.unwrap(child)
-            # Only subscripted generics or non-stdlib types can be cyclic.
+            # Only non-stdlib types can be cyclic.
             #   i.e., we may get `str` or `datetime` any number of times,
             #   that's not cyclic, so we can just add it to the graph.
+            # Only a named type (class, NewType, type alias) can be deferred by reference.
+            #   An anonymous generic or union (e.g., `list[Node]`, `Node | None`) is
+            #   walked again, the cycle is cut at the named type it contains.
             is_visited = child in visited or unwrapped in visited
-            is_subscripted = inspection.issubscriptedgeneric(unwrapped)
+            is_named = (
+                inspect.isclass(child)
+                or inspection.istypealiastype(child)
+                or hasattr(child, "__supertype__")
+            )
             is_stdlib = inspection.isstdlibtype(unwrapped)
-            can_be_cyclic = is_subscripted or is_stdlib is False
+            can_be_cyclic = is_named and is_stdlib is False
             # We detected a cyclic type,
             #   wrap in a ForwardRef and don't add it to the stack
             #   This will terminate this edge to prevent infinite cycles.
             if is_visited and can_be_cyclic:
-                qualname = inspection.qualname(child)
-                *rest, refname = qualname.split(".", maxsplit=1)
                 is_argument = var is not None
-                module = ".".join(rest) or getattr(child, "__module__", None)
-                if module in (None, "__main__") and rest:
-                    module = rest[0]
                 is_class = inspect.isclass(child)
+                # The qualified name of a class may be dotted (a nested class),
+                #   it is resolved from the module which defines the class.
                 ref = refs.forwardref(
-                    refname, is_argument=is_argument, module=module, is_class=is_class
+                    child, is_argument=is_argument, is_class=is_class
                 )
-                uref = refs.forwardref(
-                    unwrapped, is_argument=is_argument, module=module, is_class=is_class
-                )
+                # The unwrapped type can only be deferred by name if it has one.
+                uref = ref
+                if inspect.isclass(unwrapped):
+                    uref = refs.forwardref(
+                        unwrapped, is_argument=is_argument, is_class=True
+                    )
                 node = TypeNode(ref, uref, var=var, cyclic=True)
             # Otherwise, add the type to the stack and track that it's been seen.
             else:
